@@ -24,6 +24,8 @@ def cls(m):
         return "pending"
     if "outside the statement" in t:
         return "outside"
+    if t.startswith("not closed"):
+        return "open"
     if "initially" in t or "first version" in t or "missed at first" in t:
         return "late"
     if "misses it" in t or "neighbour" in t:
@@ -36,8 +38,8 @@ for m in metas:
     cnt[cls(m)] = cnt.get(cls(m), 0) + 1
 out.append("%d seeded changes confirmed; %d were caught by the quick tier of their own check as it stood, %d only by the check of a neighbouring property "
            "(named in the row), %d were missed at first and are caught after the strengthening described in the row, %d turned out to lie outside "
-           "the statement they were aimed at (reported as DRIFT, no VIOLATION due), %d still pending.\n"
-           % (n, cnt.get("direct", 0), cnt.get("other", 0), cnt.get("late", 0), cnt.get("outside", 0), cnt.get("pending", 0)))
+           "the statement they were aimed at (reported as DRIFT, no VIOLATION due), %d are not caught (the row says why), %d still pending.\n"
+           % (n, cnt.get("direct", 0), cnt.get("other", 0), cnt.get("late", 0), cnt.get("outside", 0), cnt.get("open", 0), cnt.get("pending", 0)))
 out.append("| id | property | what it needs to manifest | detected by |")
 out.append("|---|---|---|---|")
 for d in sorted(glob.glob(os.path.join(H, "seeded", "*"))):
